@@ -4,6 +4,7 @@ def b_TrafficLight_create_ref_node : CR.SrcW.Builder where
   kind := .node
   tag := "trafficLightRef"
   xsd := "trafficLightRef"
+  path := []
   parent := ""
   attrs := [("ref", (.str "_"))]
   gattrs := []
